@@ -601,6 +601,13 @@ func (u *Unit) box(st *State, v *V, it types.Type) *V {
 	}
 	// opaque box: a fresh non-nil interface value with the right dynamic type
 	r := u.fresh("iface", SInt)
+	if v.Sl != nil {
+		// remember boxed slices (sort.Slice(x, less) receives its slice as an interface value)
+		if u.boxedSlices == nil {
+			u.boxedSlices = map[string]*V{}
+		}
+		u.boxedSlices[r.S] = v
+	}
 	u.emitFact(and(app(SBool, ">", r, intLit(0)), eq(app(SInt, "iface.type", r), intLit(int64(u.typeTag(v.Typ))))))
 	return &V{Typ: it, T: r}
 }
